@@ -56,6 +56,16 @@ SUMMARY = {
  'C16-agent5': 'follow_redirects plus a status hook that lets 3xx pass: httpx re-sends redirected requests unsigned / with the stale signature',
  'C17-agent5': 'nonce size rounded up on encrypt only: nonce_bits that are not a multiple of 8 are accepted but nothing can be decrypted',
  'C20-agent5': 'each wrapper credits the wall time since its previous call: with several streams the same interval is credited once per stream',
+ 'C02-agent6': 'per-instance set of chunk locations this object uploaded: exists() skipped for them; stale once another process deletes the chunk',
+ 'C03-agent6': 'per-instance set of chunks "being handled", never withdrawn when the command fails: a retry on the same object skips the missing chunk',
+ 'C05-agent6': 'repository config cached in the (per-user) cache directory: an encrypted repository is opened with the config of an unencrypted one and writes plaintext',
+ 'C07-agent6': 'snapshot loading bounded by an asyncio.wait(FIRST_COMPLETED) window that keeps one of the finished futures and drops the rest (>= 10 x concurrency snapshots)',
+ 'C08-agent6': 'B2.delete removes only the newest stored version (b2_delete_file_version) instead of hiding the name: an older upload of the chunk reappears',
+ 'C09-agent6': 'restore leaves its thread pools through `with loader, writer`: shutdown(wait=True) on the loop thread deadlocks with loaders waiting for the loop after a failed download',
+ 'C12-agent6': 'B2 upload URLs pooled and reused; a 401 on the upload endpoint (AuthRequired, not httpx.HTTPError) puts the dead pair back, every retry fails',
+ 'C13-agent6': 'Local.list_files: a prefix equal to an existing directory scans only that directory and drops siblings whose names extend it',
+ 'C14-agent6': 'restore: "already restored" tested against files_metadata instead of files_digests: an empty newest version is overwritten by an older one',
+ 'C18-agent6': 'ownership tag of a listed snapshot checked only on download, not for cache hits: another key\'s cached entry is decrypted with the wrong secret',
  'C20-agent1': 'transfer block size floor of 16000 bytes: below 32 kB/s each block owes more than the capped debt',
 }
 rows = []
